@@ -84,11 +84,12 @@ let hex_of l = if l = [] then "-" else String.concat "" (List.map (fun x -> Prin
 let () =
   let variant = if Array.length Sys.argv > 3 then Sys.argv.(3) else "repaired" in
   let v = match variant with
-    | "repaired" -> repaired | "pre_88f69f7" -> pre_88f69f7 | "pre_b6afef3" -> pre_b6afef3
-    | "keeponly" -> { v_mode_fix = true; v_curm_fix = true; v_keep_fix = true; v_stale_fix = false }
-    | "staleonly" -> { v_mode_fix = true; v_curm_fix = true; v_keep_fix = false; v_stale_fix = true }
-    | "modefix" -> { v_mode_fix = true; v_curm_fix = false; v_keep_fix = false; v_stale_fix = false }
-    | "curmfix" -> { v_mode_fix = false; v_curm_fix = true; v_keep_fix = false; v_stale_fix = false }
+    | "repaired" -> repaired | "leaves_residue" -> leaves_residue
+    | "pre_88f69f7" -> pre_88f69f7 | "pre_b6afef3" -> pre_b6afef3
+    | "keeponly" -> { v_mode_fix = true; v_curm_fix = true; v_keep_fix = true; v_stale_fix = false; v_same_fix = false }
+    | "staleonly" -> { v_mode_fix = true; v_curm_fix = true; v_keep_fix = false; v_stale_fix = true; v_same_fix = false }
+    | "modefix" -> { v_mode_fix = true; v_curm_fix = false; v_keep_fix = false; v_stale_fix = false; v_same_fix = false }
+    | "curmfix" -> { v_mode_fix = false; v_curm_fix = true; v_keep_fix = false; v_stale_fix = false; v_same_fix = false }
     | _ -> failwith "unknown variant" in
   List.iter (fun line ->
     try
